@@ -395,10 +395,10 @@ func ruleEventGate(c *Ctx) {
 			if _, ok := isCallTo(in, pe); ok {
 				return []Ev{{Kind: "process", Stop: true}}
 			}
-			if _, ok := isStoreTo(in, fQ); ok {
+			if _, ok := isStoreToT(t, fr, in, fQ); ok {
 				return []Ev{{Kind: "write"}}
 			}
-			if _, ok := isStoreTo(in, fEQ); ok {
+			if _, ok := isStoreToT(t, fr, in, fEQ); ok {
 				return []Ev{{Kind: "queue"}}
 			}
 			if _, ok := isCallTo(in, reacc); ok {
@@ -515,13 +515,13 @@ func ruleInvalidate(c *Ctx) {
 	mk := func() *Spec {
 		sp := &Spec{}
 		sp.Classify = func(t *Tracer, fr *Frame, in ssa.Instruction) []Ev {
-			if st, ok := isStoreTo(in, fAccess); ok {
+			if st, ok := isStoreToT(t, fr, in, fAccess); ok {
 				if isNilConst(st.Val) {
 					return []Ev{{Kind: "access=nil"}}
 				}
 				return []Ev{{Kind: "access=set"}}
 			}
-			if _, ok := isStoreTo(in, fFlags); ok {
+			if _, ok := isStoreToT(t, fr, in, fFlags); ok {
 				return []Ev{{Kind: "flags"}}
 			}
 			if _, ok := isCallTo(in, loadAccess); ok {
@@ -646,10 +646,10 @@ func ruleTokenFanout(c *Ctx) {
 		c.inst(1)
 		sp := &Spec{}
 		sp.Classify = func(t *Tracer, fr *Frame, in ssa.Instruction) []Ev {
-			if _, ok := isStoreTo(in, fTok); ok {
+			if _, ok := isStoreToT(t, fr, in, fTok); ok {
 				return []Ev{{Kind: "token="}}
 			}
-			if st, ok := isStoreTo(in, fTid); ok {
+			if st, ok := isStoreToT(t, fr, in, fTid); ok {
 				if _, isP := t.Resolve(fr, st.Val).V.(*ssa.Parameter); isP {
 					return []Ev{{Kind: "tid="}}
 				}
@@ -1146,4 +1146,37 @@ func foldStateSets(tr *Tracer, n int64, verdict func(may map[int64]bool) string)
 		}
 		tr.Paths[pi] = np
 	}
+}
+
+// isStoreToT is isStoreTo inside the trace engine: the address is resolved
+// across frames, so that a store through a pointer parameter of a small
+// wrapper method (`func (p *ridPath) push(..) { *p = append(*p, ..) }`,
+// `func (q *queue) clear() { q.items = nil }`) is seen as the store to the
+// field the caller passed.
+func isStoreToT(t *Tracer, fr *Frame, in ssa.Instruction, f *types.Var) (*ssa.Store, bool) {
+	st, ok := in.(*ssa.Store)
+	if !ok || f == nil {
+		return nil, false
+	}
+	if fa, ok := st.Addr.(*ssa.FieldAddr); ok {
+		if fieldOfAddr(fa) == f {
+			return st, true
+		}
+		return nil, false
+	}
+	if t == nil || fr == nil {
+		return nil, false
+	}
+	if prm, isP := st.Addr.(*ssa.Parameter); isP {
+		if fa, ok := t.Resolve(fr, st.Addr).V.(*ssa.FieldAddr); ok && fieldOfAddr(fa) == f {
+			return st, true
+		}
+		// while probing a helper for interest: a pointer parameter to the field's type may be the field
+		if fr.ID == -1 {
+			if pt, ok := prm.Type().Underlying().(*types.Pointer); ok && types.Identical(pt.Elem(), f.Type()) {
+				return st, true
+			}
+		}
+	}
+	return nil, false
 }
